@@ -21,7 +21,9 @@ DIFFY_PREFIXES = ["++ ", "-- ", "++ b/", "-- a/", "+++ b/", "--- a/", "@@ -1 +1 
                   "+", "-", "+ ", "- ", "++", "--", "+++ ", "--- ", "index 0000000..1111111 100644 ", "new file mode 100644 ", "Binary files a/x and b/x differ "]
 FILENAMES_PLAIN = ["a.txt", "b.txt", "src/c.rs", "docs/d.md"]
 FILENAMES_HOSTILE = ["sp ace.txt", "unié中.txt", "-dash.txt", "q'uote.txt", "dir with sp/in ner.txt", "tab\tname.txt",
-                     "plus+++.txt", "a b/c d.txt", "@@.txt", "0123456789abcdef", "CON.txt", "deep/er/and/deeper/x.txt"]
+                     "plus+++.txt", "a b/c d.txt", "@@.txt", "0123456789abcdef", "CON.txt", "deep/er/and/deeper/x.txt",
+                     # a non-ASCII character directly followed by an octal digit (git quotes the byte as \251, the digit follows)
+                     "résumé2024.txt", "notes é7/日本5.txt"]
 
 FILENAMES_EXTREME = ["---", "  lead.txt", 'dq"uote.txt', "nl\nname.txt", '"quoted".txt', "trail .txt", "x\\y.txt", "semi;colon &amp.txt"]
 
